@@ -73,7 +73,7 @@ def make_cases(rng, tier):
 
 
 def run_impl(cases, release):
-    text = "".join(G.hexs(c["bytes"]) + "\n" for c in cases)
+    text = "".join(G.rawhex(c["bytes"]) + "\n" for c in cases)
     rc, out = harness_run(["resp"], text, release=release, timeout=900)
     lines = [l for l in out.split("\n") if " | " in l]
     return rc, lines, out
@@ -167,7 +167,7 @@ def main(tier, seed):
         if len(lines) < len(cases):
             c = cases[len(lines)]
             rep.failing.append({"what": "process died (%s build, exit %s) while checking/parsing this input" % (name, rc),
-                                "kind": c["kind"], "input_hex": G.hexs(c["bytes"])[:4000], "input_len": len(c["bytes"]),
+                                "kind": c["kind"], "input_hex": G.rawhex(c["bytes"])[:4000], "input_len": len(c["bytes"]),
                                 "replay": "printf '%%s\\n' <input_hex> | bcharness resp", "tail": raw[-300:]})
     model, mlogs = run_model("C07", cases)
     rep.obligation("model evaluates on every case", all(m is not None for m in model))
@@ -180,11 +180,11 @@ def main(tier, seed):
             why = oracle(c, line)
             if why:
                 rep.failing.append({"what": why, "build": name, "kind": c["kind"],
-                                    "input_hex": G.hexs(c["bytes"])[:4000], "impl": line[:300], "model": (m or "")[:300]})
+                                    "input_hex": G.rawhex(c["bytes"])[:4000], "impl": line[:300], "model": (m or "")[:300]})
             if m is not None and m != line:
                 ndis += 1
                 rep.disagree.append({"obligation": "correspondence resp: model = implementation (%s)" % name,
-                                     "kind": c["kind"], "input_hex": G.hexs(c["bytes"])[:4000], "impl": line[:300], "model": m[:300]})
+                                     "kind": c["kind"], "input_hex": G.rawhex(c["bytes"])[:4000], "impl": line[:300], "model": m[:300]})
             if not line.startswith("err:Incomplete | err:Incomplete"):
                 nontrivial.add(c["bytes"])
     rep.obligation("correspondence resp: model = implementation on every case (debug and release)", ndis == 0)
@@ -201,7 +201,7 @@ def main(tier, seed):
                 "nesting 1..200000, UTF-8 edge cases, garbage over the RESP alphabet" + (
                     "; every string of length <= 3 over a 12-symbol alphabet" if tier == "thorough" else ""),
         "case_kinds": kinds,
-        "samples": [{"kind": c["kind"], "input_hex": G.hexs(c["bytes"])[:200], "impl": l[:200]}
+        "samples": [{"kind": c["kind"], "input_hex": G.rawhex(c["bytes"])[:200], "impl": l[:200]}
                     for c, l in list(zip(cases, impl["debug"]))[:3] + list(zip(cases, impl["debug"]))[60:63]],
         "proof": {"file": "coq/Props/C07.v", "theorems": pr["theorems"], "axioms": pr["axioms"]},
     })
